@@ -156,10 +156,37 @@ class UlMalformed(Stream):
         return L.harness_ok(c, o)
 
 
+class Concurrent(Stream):
+    """8 UEs with different algorithm pairs protect their messages (short ones and UL NAS TRANSPORTs of about 2 kB) at once:
+    each sends what it sends alone. The emulator runs its UEs concurrently, so "any sequence" is a sequence among others."""
+    name = "concurrent"
+    sub = "conc"
+    model_check = None
+    spec_check = None
+    requires = []
+
+    def generate(self, rng, tier):
+        return [{"family": "nas_protect", "goroutines": 8, "iters": 300 if tier == "quick" else 4000}]
+
+    def classify(self, c, o):
+        return "same" if o.get("different") == 0 else "different"
+
+    def key(self, c, o):
+        return "nas-protect-conc"
+
+    def coq_case(self, c, o):
+        return ""
+
+    def direct_check(self, c, o):
+        if o.get("different", 1) != 0 or "harness_error" in o or "panic" in o:
+            return "concurrent protection by different UEs changes what is sent: %s" % (o.get("first") or o)
+        return None
+
+
 class C06(L.ShrinkMixin, Check):
     pid = "C06"
     prop_files = ["Properties/C06.v"]
-    streams = [UlHistories(), UlMalformed()]
+    streams = [UlHistories(), UlMalformed(), Concurrent()]
     trusted = ["Coq 8.16.1 kernel incl. vm_compute (no native_compute)", "no axioms (Print Assumptions: closed under the global context)",
                "hand-written models Model/Count.v, Model/NasSec.v (transcriptions of counter.go, tglib/security.go, packet.go) tied by the history streams "
                "ul-histories / ul-malformed: every op of every history compares the octets and both counters",
